@@ -52,25 +52,14 @@ func (f *Logbitp) Call(s *slip.Scope, args slip.List, depth int) slip.Object {
 	}
 	switch ti := args[1].(type) {
 	case slip.Fixnum:
-		if int(index) < 64 {
-			if (uint64(ti)>>int(index))&0x01 == 1 {
-				return slip.True
-			}
+		// An arithmetic shift by 64 or more leaves only the sign bits.
+		if (ti>>uint64(index))&0x01 == 1 {
+			return slip.True
 		}
 	case *slip.Bignum:
-		ba := (*big.Int)(ti).Bytes()
-		reverseBytes(ba)
-		bo := int(index) / 8
-		if bo < len(ba) {
-			if 0 < (*big.Int)(ti).Sign() {
-				if (ba[bo]>>(index%8))&0x01 == 1 {
-					return slip.True
-				}
-			} else {
-				if (ba[bo]>>(index%8))&0x01 != 1 {
-					return slip.True
-				}
-			}
+		// Bit() treats a negative big.Int as two's complement.
+		if (*big.Int)(ti).Bit(int(index)) == 1 {
+			return slip.True
 		}
 	default:
 		slip.TypePanic(s, depth, "integer", ti, "integer")
